@@ -418,6 +418,24 @@ class GEA:
             return (h, self.resolve_phis(term[1], val, _busy)) + tuple(term[2:])
         return term
 
+    def resolve_root(self, term, val):
+        """Resolve only the outermost multi-def local (a value bound to a local before it is tested); variables nested
+        inside the definition stay symbolic, so the resulting atom is the one a direct test would have produced."""
+        seen = set()
+        while isinstance(term, tuple) and term and term[0] == "phi" and term[1] not in seen:
+            seen.add(term[1])
+            sel = val.get(("def", term[1]))
+            if sel is None or len(sel) != 1:
+                break
+            site = next(iter(sel))
+            if site[0] == "param":
+                return ("param", term[1], term[2])
+            dt = self.prov.def_term(site)
+            if term[1] in P.phi_locals(dt):
+                break
+            term = dt
+        return term
+
     def _switch_succ(self, bb, val):
         """[(target, refined valuation dict)]"""
         t = self.body.blocks[bb]["term"]
@@ -432,9 +450,22 @@ class GEA:
             return [(x, val) for x in targets]
         if info["kind"] == "atom":
             atom = info["atom"]
+            arms = info["arms"]
+            if atom[0] == "VARIANT" and atom[1][0] == "phi":
+                # match on a value computed into a local first: resolve which definition reaches here
+                r = self.resolve_root(atom[1], val)
+                if r != atom[1]:
+                    if r[0] == "agg" and isinstance(r[1], tuple) and r[1][0] == "adt":
+                        vname = r[1][2]
+                        if r[1][1] in P.STD_SUM_TYPES:
+                            vname = norm_variant_name(vname)
+                        return [(tg, val) for tg, vs in arms.items() if vname in vs]
+                    atom = ("VARIANT", P.strip_ok_preserving(r))
+                    if atom not in self.atoms:
+                        self.atoms[atom] = [bb]
             cur = val.get(atom)
             out = []
-            for tg, vs in info["arms"].items():
+            for tg, vs in arms.items():
                 nv = vs if cur is None else (vs & cur)
                 if not nv:
                     continue
